@@ -135,6 +135,11 @@ func bodyC11(s *Sim) {
 		s.userSetTemplate(def.NS, def.Name, "B")
 		s.until(r, max, canaryRunning)
 		s.countCalls = false
+		// paused and unpaused before it is validated: the annotations the promotion has to clear
+		s.RunCLI("canary-pause", key)
+		s.Round(r)
+		s.RunCLI("canary-unpause", key)
+		s.Round(r)
 		s.RunCLI("canary-validate", key)
 		s.countCalls = true
 	case "canary-fail", "canary-fail-late":
@@ -201,7 +206,13 @@ func (s *Sim) abstractFinal() string {
 		if act != nil {
 			al = letterOfTpl(&act.Spec.Template)
 		}
-		parts = append(parts, fmt.Sprintf("eds:%s spec=%s active=%s canary=%v state=%s d%d c%d r%d a%d u%d", e.Name, letterOfTpl(&e.Spec.Template), al, e.Status.Canary != nil, e.Status.State, e.Status.Desired, e.Status.Current, e.Status.Ready, e.Status.Available, e.Status.UpToDate))
+		var anns []string
+		for _, k := range sortedKeys(e.Annotations) {
+			if strings.HasPrefix(k, "extendeddaemonset.datadoghq.com/canary-") {
+				anns = append(anns, shortAnn(k)+"="+e.Annotations[k])
+			}
+		}
+		parts = append(parts, fmt.Sprintf("eds:%s spec=%s active=%s canary=%v state=%s d%d c%d r%d a%d u%d ann=%v", e.Name, letterOfTpl(&e.Spec.Template), al, e.Status.Canary != nil, e.Status.State, e.Status.Desired, e.Status.Current, e.Status.Ready, e.Status.Available, e.Status.UpToDate, anns))
 	}
 	var ls []string
 	for _, r := range s.Store.ERSs() {
@@ -331,7 +342,7 @@ func init() {
 	register(&Profile{Name: "C11", Decide: []string{"C11"}, Level: "fault_enumeration", Quick: units * c11Slices, Thorough: units * 6 * c11Slices, Body: bodyC11, Multi: multiC11,
 		Gen:        func(r *rand.Rand, tier string, idx int) *World { return genC11World(r, c11Scenarios[0]) },
 		NonVacuous: []string{"C11.faulted-run"}, Chunk: 1, Exhaustive: true,
-		Rule: "Corpus of 9 scripted, barrier-synchronised scenarios (first deployment, rolling update, canary promoted by time, canary validated, canary failed and rolled back, the same with the recovery after a fault delayed past the canary duration, node removal and addition, setting change, migration from an old DaemonSet with foreign look-alike pods), each over 1 (quick) or 6 (thorough) seeds that vary cluster size, configuration, node-assignment mode and schedule. For each (scenario, seed) the failure-free run is recorded; then for EVERY index k of the API calls issued by controller tasks during the scenario and every applicable fault kind (reads: rejected; writes: rejected, applied-but-reply-lost, crash before, crash after with fresh reconcilers) the same seed is re-run with that single fault, continued to quiescence, checked against all safety monitors at every step and compared with the failure-free final state. Thorough adds 40 PRNG-sampled fault pairs per slice. The space (calls x kinds) of each listed scenario/seed is enumerated completely; one evaluation = one slice of a unit."})
+		Rule: "Corpus of 9 scripted, barrier-synchronised scenarios (first deployment, rolling update, canary promoted by time, canary paused, unpaused and validated, canary failed and rolled back, the same with the recovery after a fault delayed past the canary duration, node removal and addition, setting change, migration from an old DaemonSet with foreign look-alike pods), each over 1 (quick) or 6 (thorough) seeds that vary cluster size, configuration, node-assignment mode and schedule. For each (scenario, seed) the failure-free run is recorded; then for EVERY index k of the API calls issued by controller tasks during the scenario and every applicable fault kind (reads: rejected; writes: rejected, applied-but-reply-lost, crash before, crash after with fresh reconcilers) the same seed is re-run with that single fault, continued to quiescence, checked against all safety monitors at every step and compared with the failure-free final state. Thorough adds 40 PRNG-sampled fault pairs per slice. The space (calls x kinds) of each listed scenario/seed is enumerated completely; one evaluation = one slice of a unit."})
 }
 
 var _ = json.Marshal
